@@ -159,6 +159,13 @@ theorem C06_distributed_substep_booked {B : Type} (rule : Rule) (ops : BatOps α
     ∀ s ∈ w'.stations, ∀ g ∈ w'.gcs, g.id = s.parent → (sdGet g.loads s.id).getD 0 = s.currentPower :=
   (ruleStep_booked rule ops law env w w' cmds hno hd h).1
 
+/-- **After the repair DIST2 every station of a connector's virtual world carries what is booked for it — for every
+sub-strategy** (greedy, balanced, peak_shaving, …: the statement is about the assignment itself): with `g` the
+connector of the virtual world, every station's power equals its entry at `g` (0 if absent). -/
+theorem C06_distributed_sync_booked {B : Type} (vw : SWorld α B) (g : GcS α) (hg : vw.gcs = [g]) :
+    ∀ s ∈ (syncStations vw).stations, (sdGet g.loads s.id).getD 0 = s.currentPower :=
+  syncStations_booked vw g hg
+
 /-- **The final surplus pass keeps "station entry = station power".** -/
 theorem C06_distributed_final_pass_keeps_booked {B : Type} (ops : BatOps α B) (law : BatLaw ops)
     (env : StratEnv α) (w w' : SWorld α B) (ids : List String) (cmds' : List (String × α))
